@@ -7,6 +7,7 @@ import (
 
 func init() {
 	replayers["C11"] = replayC11
+	constReplayers["C11"] = replayC11Regex
 	replayers["C17"] = replayC17
 	replayers["C10"] = replayC10
 	replayers["C20"] = replayC20
@@ -682,4 +683,82 @@ func TestVerifReplayC16(t *testing.T) {
 		return !passed && strings.Contains(out, "REPRODUCED"), trimOut(out)
 	}
 	return false, "no replay template for this obligation (the --id guard needs a Git work tree and a lock server)\n"
+}
+
+// C11, regexp of configureCustomAdapters: the solver's string (a key on which
+// the code's pattern and "exactly lfs.customtransfer.<name>.path" disagree) is
+// put into a Git environment, together with the key shape a .lfsconfig can
+// really set, and the real manifest is asked which transfer agents it knows.
+func replayC11Regex(w *World, ob *Obligation) (bool, string) {
+	if !strings.Contains(ob.Name, "configureCustomAdapters") {
+		return false, "no replay template for this constant\n"
+	}
+	var cands []string
+	if i := strings.Index(ob.Model, "String"); i >= 0 {
+		rest := ob.Model[i:]
+		if j := strings.Index(rest, "\""); j >= 0 {
+			rest = rest[j+1:]
+			if k := strings.Index(rest, "\")"); k >= 0 {
+				cands = append(cands, smtUnescape(rest[:k]))
+			}
+		}
+	}
+	cands = append(cands, "lfs.https://example.com/lfs.customtransfer.evil.path.access")
+	test := `package tq
+
+import (
+	"regexp"
+	"testing"
+
+	"github.com/git-lfs/git-lfs/v3/config"
+	"github.com/git-lfs/git-lfs/v3/lfsapi"
+)
+
+func TestVerifReplayC11Regex(t *testing.T) {
+	exact := regexp.MustCompile("\\Alfs\\.customtransfer\\.[^.]+\\.path\\z")
+	for _, key := range []string{` + quoteList(cands) + `} {
+		cfg := config.NewFrom(config.Values{Git: map[string][]string{key: []string{"/tmp/verif-replay-agent"}}})
+		c, err := lfsapi.NewClient(cfg)
+		if err != nil {
+			t.Fatal(err)
+		}
+		m := NewManifest(cfg.Filesystem(), c, "download", "origin")
+		custom := 0
+		for _, n := range m.GetAdapterNames(Download) {
+			if a, ok := m.NewDownloadAdapter(n).(*customAdapter); ok && a.path == "/tmp/verif-replay-agent" {
+				custom++
+			}
+		}
+		if (custom > 0) != exact.MatchString(key) {
+			t.Errorf("REPRODUCED: configuration key %q registers %d custom transfer agent(s); exact key: %v", key, custom, exact.MatchString(key))
+		}
+	}
+}
+`
+	out, passed, err := runOverlayTest(w.repoDir, "tq", "zz_verif_replay_test.go", test, "TestVerifReplayC11Regex")
+	if err != nil {
+		return false, "replay could not run: " + err.Error() + "\n"
+	}
+	return !passed && strings.Contains(out, "REPRODUCED"), trimOut(out)
+}
+
+// smtUnescape decodes the \u{..} escapes and doubled quotes of an SMT-LIB string literal.
+func smtUnescape(s string) string {
+	var b strings.Builder
+	for i := 0; i < len(s); i++ {
+		if strings.HasPrefix(s[i:], "\\u{") {
+			if j := strings.IndexByte(s[i:], '}'); j > 0 {
+				var r rune
+				fmt.Sscanf(s[i+3:i+j], "%x", &r)
+				b.WriteRune(r)
+				i += j
+				continue
+			}
+		}
+		if s[i] == '"' && i+1 < len(s) && s[i+1] == '"' {
+			i++
+		}
+		b.WriteByte(s[i])
+	}
+	return b.String()
 }
